@@ -228,6 +228,28 @@ def check (c):
     if abs (P2 - P_src) > 1e-9 * S:
         viol.append (dict ( monitor = 're-solve', key = 're-solve-power'
                           , msg = 'second compute () on the same object: source power %r, first solve %r' % (P2, P_src)))
+    # ---- the feed taken away and put somewhere else on the same object (one source, another pulse): the books of the
+    # new solution balance as well (every fourth case in the deciding band, ideal environments)
+    if band == 'decide' and not real_ground and not viol and len (I) >= 4 and int (common.sha (spec), 16) % 4 == 0:
+        MM  = common.repo ()
+        old = [s.idx for s in m.sources]
+        new = [k for k in [(old [0] + len (I) // 2) % len (I), (old [0] + 1) % len (I)] if k not in old]
+        if new:
+            m.sources = []
+            common.guarded (lambda: m.register_source (MM.Excitation (0.8 - 0.3j), new [0]), 'register_source')
+            observe.solve (m)
+            I3 = np.asarray (m.current)
+            S3 = 0.5 * abs (0.8 - 0.3j) * abs (I3 [new [0]])
+            P3 = (0.5 * (0.8 - 0.3j) * np.conj (I3 [new [0]])).real
+            L3 = sum (0.5 * abs (I3 [p.idx]) ** 2 * complex (l.impedance (m.f, p)).real for l in m.loads for p in l.pulses)
+            if P3 > 0 and np.isfinite (I3).all ():
+                e3 = integrate (m, 3.0, 10.0)
+                r3 = (float (e3 [2]) * float (m.power) + L3 - P3) / S3
+                mon ['balance.feed-moved'] = 1
+                if abs (r3) > 0.02:
+                    viol.append (dict (monitor = 'balance.feed-moved', key = 'power-balance-after-moving-the-feed'
+                                      , msg = 'sources %s removed, one source on pulse %d, same object solved again: (P_rad + P_load - P_src) / S = %+.4f (first solution %+.4f)' % ([k + 1 for k in old], new [0] + 1, r3, err)
+                                      , measured = abs (r3), allowed = 0.02))
     MMm = m
     g0  = MMm.geo [0]
     trivial = ( len (m.geo) == 1 and len (m.sources) == 1 and not m.loads and abs (m.sources [0].voltage - 1) < 1e-12
